@@ -644,7 +644,7 @@ var Engine = &core.Engine{
 	},
 	Cases: func(tier string) int {
 		if tier == "thorough" {
-			return 600000
+			return 480000
 		}
 		return 40000
 	},
